@@ -16,8 +16,11 @@ def scenarios(rng, tier):
         s.start('reset_%d' % k); s.lines.append(base_cfg.line()); s.lines.append(c1.line())
         s.lines.append(gline(host=b'host', icon=icon, fname=b'friendly', hwid=b'\x01\x02\x03\x04'))
         st = [mac(i) for i in range(1, 5)]
-        h = Scn(); session(rng, h, 0, base_cfg, st, n_ops=rng.choice([5, 25, 60]), noise=0.1, icon_len=len(icon))
-        s.lines += h.lines
+        if rng.random() < 0.35:      # observations recorded before any mapper is known
+            for t in range(rng.choice([1, 2, 4])): s.frame(0, probe(mac(400 + t), own, mac(400 + t), own, train=t % 2 == 0))
+        if rng.random() < 0.85:
+            h = Scn(); session(rng, h, 0, base_cfg, st, n_ops=rng.choice([5, 25, 60]), noise=0.1, icon_len=len(icon))
+            s.lines += h.lines
         # make the tail of h interesting
         M = rng.choice(st)
         for t in range(rng.choice([0, 1, 3])):
@@ -26,6 +29,7 @@ def scenarios(rng, tier):
             elif r < 0.6: s.frame(0, probe(mac(300 + t), own, mac(300 + t), own))
             elif r < 0.8: s.frame(0, discover(M, tos=rng.choice([0, 1]), gen=rng.randrange(1, 65536), esrc=mac(60)))
             else: s.frame(0, query(M, own, seq=9))
+        if rng.random() < 0.4: s.frame(0, reset(rng.choice(st), tos=1))      # the quick-discovery service ended first
         s.frame(0, reset(rng.choice(st), tos=0))
         c = Scn(); session(rng, c, 0, base_cfg, st, n_ops=rng.choice([5, 20, 40]), noise=0.1, icon_len=len(icon))
         # the icon may differ now: the cache must not leak
